@@ -123,10 +123,11 @@ def main(ctx):
     # (b) cases
     sp = C04.shapes(ctx)
     tp = C04.tables(ctx)
+    hp = C04.hetero(ctx)
     wb = ctx.build("writers")
     cases = os.path.join(ctx.scratch, "cases.ndjson")
     with open(cases, "wb") as f:
-        ctx.run([wb, "sengen", "-tier", ctx.tier, "-shapes", sp, "-pred", pp, "-tables", tp], stdout=f)
+        ctx.run([wb, "sengen", "-tier", ctx.tier, "-shapes", sp, "-pred", pp, "-tables", tp, "-hetero", hp], stdout=f)
     # (c) run and judge
     recs = judge(ctx, cases)
     for rr in recs:
